@@ -466,3 +466,60 @@ def pool_scripts(case, out):
             steps.append({"dels": [id2name[d] for d in st["del"] if d in id2name], "puts": puts})
         res.append({"id": "%s/%s" % (case["id"], order), "naccts": na, "blocks": blocks, "preload": preload, "steps": steps})
     return res
+
+
+def dpos_restart_family(ctx):
+    """C06 on the consensus side ("same final state as a run without the crash"): the real dpos.Status (g5's engine
+    harness/engines/dposlib, driven in ChainService's call order) is restarted (NewStatus / bootLoader / libStatus.load:
+    the confirmation list is replayed from begRecoBlockNo) after one producer made L blocks alone behind blocks of other
+    producers, then the other producers return with wide confirm ranges.  Every scenario is run twice, with and without
+    the restart; predicate: the sequence of LIB numbers after every delivery is the same.  L stays below 3*confirmsRequired
+    (the documented replay window: at and beyond it the restored proposals legitimately differ, C08's known finding F45).
+    Returns [{"key", "what", "replay"}], empty on an unchanged tree."""
+    import c08gen as G
+    from c08election import _c08
+    c08 = _c08()
+    eng = os.path.join(vf.HARNESS, "engines/dposlib")
+    rc, log, binpath = ctx.go_test_binary(
+        "consensus/impl/dpos", [os.path.join(eng, "zz_verif_c08_engine_test.go"),
+                                os.path.join(eng, "zz_verif_c08_election_engine_test.go")], "dpos_c06.test")
+    if rc != 0:
+        raise RuntimeError("dpos engine build failed:\n" + log[-3000:])
+
+    def scen(n, pre, L, tail, restart):
+        t = G.Tree()
+        tip = 0
+        for bp in pre + [1] * L:
+            tip = t.mk(tip, bp)
+            t.ops.append(["D", 0, tip])
+        if restart:
+            t.ops.append(["R", 0])
+        for bp in tail:
+            tip = t.mk(tip, bp)
+            t.ops.append(["D", 0, tip])
+        return {"n": n, "nodes": 1, "self": [-1], "ops": t.ops}
+    fam = []
+    for n in ((3, 4) if ctx.tier == "quick" else (3, 4, 5, 7)):      # the engine has 8 producer keys
+        cr = 2 * n // 3 + 1
+        for L in range(1, 3 * cr):
+            for pre in ([0], [2 % n, 0], [0, 2 % n, 0]):
+                fam.append((n, pre, L, [(2 + i) % n for i in range(2 * n)]))
+    sc = []
+    for f in fam:
+        sc.append(scen(*f, False))
+        sc.append(scen(*f, True))
+    obs = c08.run_engine(ctx, binpath, sc, "c06_dpos_restart")
+    out = []
+    for i, f in enumerate(fam):
+        a = [o["state"]["lib_no"] for o in obs[2 * i] if o["op"] == "D"]
+        b = [o["state"]["lib_no"] for o in obs[2 * i + 1] if o["op"] == "D"]
+        if a != b:
+            k = next(j for j in range(min(len(a), len(b))) if a[j] != b[j])
+            out.append({"key": "%s:dpos-lib-differs-after-restart" % ctx.id,
+                        "what": "DPoS status restarted after producer 1 made %d blocks alone (n=%d, confirmsRequired=%d): after delivery %d the LIB is %d, "
+                                "%d in the run without the restart (the boot-time replay of the confirmation list forgot unconfirmed blocks)"
+                                % (f[2], f[0], 2 * f[0] // 3 + 1, k, b[k], a[k]),
+                        "replay": {"scenario_with_restart": sc[2 * i + 1], "lib_without_restart": a, "lib_with_restart": b}})
+    dist = ctx.cov.setdefault("input_distribution", {})
+    dist["dpos_restart_pairs"] = len(fam)
+    return out
